@@ -96,6 +96,10 @@ def generate(pid, P):
             E0.obligations.extend(E.obligations)
             E0.unsupported.extend(E.unsupported)
             E0.feas_checks += E.feas_checks
+            for k, v in E.callsite_normal.items():
+                t = E0.callsite_normal.setdefault(k, [0, 0])
+                t[0] += v[0]
+                t[1] += v[1]
             for k, v in E.stats.items():
                 E0.stats[k] = E0.stats.get(k, 0) + v
     for t in P.get("trusted", []):
@@ -186,6 +190,12 @@ def main(argv=None):
         if not real:
             lines.append("CHECKER-ERROR property=%s zero obligations generated" % pid)
         status = 3
+    for callee, (kept, dropped) in sorted(E.callsite_normal.items()):
+        if kept == 0 and dropped > 0:
+            # vacuity guard at call sites: a callee whose NORMAL return is infeasible at every call site (a contradiction between its call-site model and its own
+            # postcondition looks like that) would leave its callers verified for its failures only
+            lines.append("CHECKER-ERROR property=%s the normal return of %s is infeasible at every one of its %d call sites" % (pid, callee, dropped))
+            status = 3
     for name, why in E.unsupported:
         lines.append("UNDECIDED property=%s function=%s reason=%s" % (pid, name, why))
         status = max(status, 2)
@@ -316,6 +326,7 @@ def main(argv=None):
                 "vacuity": {"pre_sat_checks": len(vac), "reachable_exit_paths": sum(1 for ob in canaries if ob.result == "sat"), "canary_unknown": sum(1 for ob in canaries if ob.result not in ("sat", "unsat")),
                             "exit_paths": len(canaries)},
                 "paths": E.stats["paths"], "feasibility_checks": E.feas_checks,
+                "callsite_normal_outcomes": {k: {"kept": v[0], "dropped_as_infeasible": v[1]} for k, v in sorted(E.callsite_normal.items())},
                 "refuted": [ob.name for ob in refuted], "undecided": [ob.name for ob in unknown] + [u[0] for u in E.unsupported],
                 "known_findings_printed": [f["id"] for f in known_hit.values()],
                 "bounded": bounded,
